@@ -1,8 +1,47 @@
-(* C08 — a query's answer does not depend on what else was grounded (statements only). *)
-From Coq Require Import NArith QArith List Bool.
-From PL.Sem Require Import Program Sem.
+(* C08 — a query's answer does not depend on what else was grounded.
+   Semantic side.  Only statements; proofs in Sem/RelProofs.v. *)
+From Coq Require Import NArith QArith List Bool Permutation.
+From PL.Sem Require Import Program Sem SemBasics PermProofs PermFO RelProofs.
 Import ListNotations.
 
+(* The value of a query on a ground program does not mention the other queries (roots) at all. *)
+Theorem C08_sem_query_indep : forall cs qs qs' ev q, gprob (mkG cs qs ev) q = gprob (mkG cs qs' ev) q.
+Proof. exact gprob_queries_irrelevant. Qed.
+Print Assumptions C08_sem_query_indep.
+
+(* First-order: adding a further query statement over known constants changes no existing answer
+   (the Herbrand domain, hence the instantiation, is the same up to order). *)
+Theorem C08_add_query : forall P a q, incl (consts_atom a) (domain P) -> prob (P ++ [SQuery a]) q = prob P q.
+Proof. exact prob_add_query. Qed.
+Print Assumptions C08_add_query.
+
+(* ... and the order in which queries/evidence/clauses are stated (grounded) is irrelevant. *)
+Theorem C08_order_free : forall P P' q, Permutation P P' -> prob P q = prob P' q.
+Proof. exact prob_perm_statements. Qed.
+Print Assumptions C08_order_free.
+
+(* Relevant sub-program, probabilistic half: when the value of a world only depends on the rules selected
+   by `kr` (e.g. "head in the dependency cone of the goals"), the sum over the total choices of the whole
+   program equals the sum over the total choices of the kept clauses: the choices of every dropped AD
+   instance marginalise to (sum p_i) + (1 - sum p_i) = 1.  This is the theorem behind SemFast.restrict. *)
+Theorem C08_irrelevant_choices_marginalise_partial :
+  forall (kr : nrule gatom -> bool) (F F' : list (nrule gatom) -> Q),
+  (forall acc acc', filter kr acc = filter kr acc' -> F acc == F' acc') ->
+  forall cs, wsum gatom F cs [] == wsum gatom F' (filter (keepc gatom kr) cs) [].
+Proof. intros kr F F' H cs. apply (wsum_restrict gatom kr F F' H cs [] []). reflexivity. Qed.
+Print Assumptions C08_irrelevant_choices_marginalise_partial.
+
+(* FULL STATEMENT, not proved (hence `_partial` above):
+     C08_relevant : restrict cs goals = Some cs' -> In q goals -> (forall e, In e ev -> In (fst e) goals) ->
+                    neg_cycle_free cs = Some true ->
+                    prob_gen cs' ev q = prob_gen cs ev q.
+   Missing lemma (logical half): locality of the well-founded model — for kr r := mem (fst r) C with C the
+   dependency cone, `filter kr acc = filter kr acc'` implies that wfm acc U and wfm acc' U' agree on the atoms
+   of C (so the four indicators of prob_gen satisfy the hypothesis of the theorem above).  The oracle's use of
+   `restrict`/`prune` is therefore additionally tied to Sem.answers by the spec-vs-fast self-check of the C01 run.
+   Also not proved: C08_roots_monotone / C08_order_free on the pipeline model ground_m (DESIGN C01 stretch). *)
+
 Example C08_example :
-  gprob (mkG [AD [(3#10, (1%N, []))] []; Rule (2%N, []) [Pos (1%N, [])]] [(2%N, [])] []) (2%N, []) = Ok (3#10).
+  gprob (mkG [AD [(3#10, (1%N, []))] []; Rule (2%N, []) [Pos (1%N, [])]; AD [(1#2, (5%N, []))] []] [(2%N, [])] []) (2%N, [])
+  = Ok (3#10).
 Proof. vm_compute. reflexivity. Qed.
